@@ -25,6 +25,11 @@ Fixpoint rmap {A B} (f : A -> res B) (l : list A) : res (list B) :=
 Definition fixed_D23 : bool := true.   (* tensor index on the stack dim replaces member objects *)
 Definition fixed_D26 : bool := true.   (* transpose across the stack dim: single member transpose instead of a rotation *)
 Definition fixed_D13 : bool := true.   (* _lazy_cat(out=): running offset doubles; writes go to a dense copy *)
+Definition fixed_D36 : bool := false.  (* _split_index: split_dim of a mask on / across the stack dim ignores the Nones before it
+                                          (repair fixes/C08/C08-D36.diff: "+ num_none"; flip to true when it lands in /repo) *)
+(* the dim of the VALUE along which __setitem__ splits it for the rows of a mask: pos = the dim of self the mask starts on *)
+Definition split_dim_of (fixed : bool) (pos num_single num_none : Z) : Z :=
+  pos - num_single + (if fixed then num_none else 0).
 
 (* LazyStackedTensorDict._compute_batch_size  (_lazy.py:563): s = list(batch_size); s.insert(stack_dim, num_tds) *)
 Definition compute_batch_size (bs : list Z) (stack_dim : nat) (num_tds : Z) : list Z := insert_at stack_dim num_tds bs.
@@ -148,7 +153,8 @@ Definition split_step (sd : nat) (n : nat) (shape : list Z) (i : nat) (it : item
                 st_num_single := st_num_single s; st_num_none := st_num_none s; st_num_squash := st_num_squash s;
                 st_isint := st_isint s; st_has_bool := true; st_nd := st_nd s; st_enc := st_enc s;
                 st_cursor := S (st_cursor s);                                (* cursor_incr stays 1 here *)
-                st_split_dim := Z.of_nat sd - st_num_single s; st_mask_loc := i; st_masks := ms |})
+                st_split_dim := split_dim_of fixed_D36 (Z.of_nat sd) (st_num_single s) (st_num_none s);
+                st_mask_loc := i; st_masks := ms |})
       | ITen tsh vals =>
           Ok {| st_out := st_out s; st_sel := STen tsh vals;
                 st_num_single := if st_enc s then st_num_single s + 1 else st_num_single s;
@@ -182,7 +188,9 @@ Definition split_step (sd : nat) (n : nat) (shape : list Z) (i : nat) (it : item
                 Ok {| st_out := st_out s ++ [OT ms]; st_sel := SRange (map Z.of_nat (seq 0 (Z.to_nat si)));
                       st_num_single := st_num_single s; st_num_none := st_num_none s; st_num_squash := squash;
                       st_isint := st_isint s; st_has_bool := true; st_nd := st_nd s; st_enc := st_enc s;
-                      st_cursor := (cur + nd)%nat; st_split_dim := Z.of_nat cur - st_num_single s; st_mask_loc := i; st_masks := ms |}
+                      st_cursor := (cur + nd)%nat;
+                      st_split_dim := split_dim_of fixed_D36 (Z.of_nat cur) (st_num_single s) (st_num_none s);
+                      st_mask_loc := i; st_masks := ms |}
             | None => Raised
             end)
           else
